@@ -138,6 +138,36 @@ func cloneWriter(w writer, cp *capture) writer {
 	panic("unknown writer")
 }
 
+// cloneFaithful tells whether a struct copy of the writer is an independent writer in the same
+// state: two clones of the same writer must emit the same bytes for the same message, and so
+// must a third one taken afterwards (a writer that keeps its counter behind a pointer fails
+// this; its histories are then replayed from the start instead of branched from a clone).
+func cloneFaithful(pre writer) (ok bool) {
+	defer func() {
+		if recover() != nil {
+			ok = false
+		}
+	}()
+	var seqs [3]byte
+	for i := range seqs {
+		cp := &capture{}
+		w := cloneWriter(pre, cp)
+		if err := w.Write(opMessage(opDecoded, 0)); err != nil {
+			return false
+		}
+		var out []byte
+		for _, b := range cp.bufs {
+			out = append(out, b...)
+		}
+		f, ok := gm.ParseExactly(out)
+		if !ok {
+			return false
+		}
+		seqs[i] = f.Seq // (signed frames differ in their timestamps: the counter is the state)
+	}
+	return seqs[0] == seqs[1] && seqs[1] == seqs[2]
+}
+
 // evalHistory returns problem and number of transitions.
 func evalHistory(c *hcase) (string, int) {
 	return evalHistoryFrom(c, nil)
@@ -319,7 +349,7 @@ func main() {
 	if r.ReplayMode() {
 		return
 	}
-	var hist, trans bx.Counter
+	var hist, trans, replayed bx.Counter
 	var states bx.Distinct
 
 	// configuration space of Initialize (complete)
@@ -397,6 +427,10 @@ func main() {
 			pre.Write(opMessage(opDecoded, i)) //nolint
 		}
 		trans.Add(j.off)
+		if !cloneFaithful(pre) {
+			pre = nil // every history replays its prefix
+			replayed.Add(1)
+		}
 		for idx := 0; idx < total; idx++ {
 			if idx%256 == 0 && r.Expired() {
 				return
@@ -470,6 +504,7 @@ func main() {
 		"states":                        states.N(),
 		"transitions":                   trans.N(),
 		"traces_validated_against_impl": hist.N(),
+		"jobs_replaying_prefix_because_struct_copy_is_not_a_clone": replayed.N(),
 		"evaluations":                   hist.N() + ninit,
 		"distinct_nontrivial":           states.N(),
 		"rule":                          "state = (configuration, frames emitted mod 256); all operation sequences of length <= depth over {decoded, raw, with extensions, id 300, id outside the dialect, nil} from offsets {0,254,255,256,510,511}; every emitted frame is parsed by the reference and compared with the configured identity, version, flags, checksum and the reference counter",
